@@ -146,6 +146,46 @@ func (vc *VC) baseEnv(st *State) *Env {
 
 func (vc *VC) assumeGlobals(st *State) {
 	for _, g := range vc.cs.GlobalInvs {
+		// mode noglobal=<label>[,<label>]: this function takes input that has not been validated yet; the labelled
+		// global assumption (which speaks about validated objects only) is not made inside it
+		if vc.spec != nil && g.Clause.Label != "" {
+			skip := false
+			for _, l := range strings.Split(vc.spec.Modes["noglobal"], ",") {
+				if l == g.Clause.Label {
+					skip = true
+				}
+			}
+			if skip {
+				vc.notes["global assumption ["+g.Clause.Label+"] not made in this function (mode noglobal)"] = true
+				continue
+			}
+		}
+		gexpr := g.Clause.E
+		extra := map[string]Val{}
+		// mode exempt=<label>:<param>[,...]: the named parameter is input that has not been validated yet; the labelled
+		// global assumption is made for every object except that one
+		if vc.spec != nil && g.Clause.Label != "" && vc.spec.Modes["exempt"] != "" {
+			for _, ex := range strings.Split(vc.spec.Modes["exempt"], ",") {
+				lab, par, ok := strings.Cut(ex, ":")
+				q, isQ := gexpr.(*EQuant)
+				if !ok || lab != g.Clause.Label || !isQ || !q.Forall {
+					continue
+				}
+				pv, known := vc.paramVals[par]
+				if !known || pv.Ty == nil {
+					continue
+				}
+				body := q.Body
+				for _, v := range q.Vars {
+					if strings.HasPrefix(v.Type, "*") && strings.HasSuffix(types.TypeString(pv.Ty, nil), "."+strings.TrimPrefix(v.Type, "*")) {
+						body = &EBin{Op: "==>", L: &EBin{Op: "!=", L: &EIdent{Name: v.Name}, R: &EIdent{Name: "old:" + par}}, R: body}
+					}
+				}
+				gexpr = &EQuant{Forall: true, Vars: q.Vars, Body: body}
+				extra["old:"+par] = pv
+				vc.notes["global assumption ["+lab+"] not made for the unvalidated input "+par] = true
+			}
+		}
 		env := &Env{vc: vc, st: st, old: st, vars: map[string]Val{}, pkg: vc.fn.Pkg.Pkg}
 		// evaluate in the package that declared it
 		for path, sp := range vc.w.SSAPkgs {
@@ -165,7 +205,10 @@ func (vc *VC) assumeGlobals(st *State) {
 				continue
 			}
 		}
-		t, err := env.compileBool(g.Clause.E)
+		for k, v := range extra {
+			env.vars[k] = v
+		}
+		t, err := env.compileBool(gexpr)
 		if err != nil {
 			continue
 		}
@@ -1301,7 +1344,10 @@ func (vc *VC) exec(st *State, ins ssa.Instruction) error {
 			return err
 		}
 		st.heap["N_send"] = vc.define("N_send", "Int", sx("+", vc.heapGet(st, "N_send", "Int"), "1"))
-	case *ssa.Select, *ssa.MakeChan:
+	case *ssa.MakeChan:
+		// a new channel is a fresh object; channel contents are not modelled
+		vc.vals[x] = vc.newRef(st, "chan")
+	case *ssa.Select:
 		vc.unsupp[fmt.Sprintf("%T", x)] = true
 		if v, ok := ins.(ssa.Value); ok {
 			vc.setFresh(st, v, "chan")
